@@ -217,6 +217,9 @@ CATALOGUE = [
     ("C02", "c02-named-condition-scalar-gate", EL, "        if isinstance(output_value_ref, BundleRef):\n            # cond : bundle - the whole bundle passes while the named condition is non-zero\n", "        if False:\n            # cond : bundle - the whole bundle passes while the named condition is non-zero\n", 1, "fire", "C02-R19"),
     ("C10", "c10-remainder-sign", "dsl_compiler/src/common/int32.py", "    return left - right * trunc_div(left, right)", "    remainder = abs(left) % abs(right)\n    return -remainder if (left < 0) != (right < 0) else remainder", 1, "fire", "C10-R17"),
     ("C11", "c11-remainder-sign", "dsl_compiler/src/common/int32.py", "    return left - right * trunc_div(left, right)", "    remainder = abs(left) % abs(right)\n    return -remainder if (left < 0) != (right < 0) else remainder", 1, "fire", "witness"),
+    # ---- wave 8 ----
+    ('C12', 'c12-fast-hop-no-isolation', CP, '        # Phase 1: Try to find a path through existing relays\n        existing_path = self._find_path_through_existing_relays(', '        hop = self.find_relay_near(((source_pos[0] + sink_pos[0]) / 2.0, (source_pos[1] + sink_pos[1]) / 2.0), self.relay_search_radius)\n        if hop is not None and math.dist(hop.position, source_pos) <= self.span_limit and math.dist(hop.position, sink_pos) <= self.span_limit:\n            hop.add_network(network_id, wire_color)\n            return [(hop.entity_id, wire_color)]\n\n        # Phase 1: Try to find a path through existing relays\n        existing_path = self._find_path_through_existing_relays(', 1, 'fire', 'recorded only on a pole'),
+    ('C12', 'c12-fast-hop-tested-benign', CP, '        # Phase 1: Try to find a path through existing relays\n        existing_path = self._find_path_through_existing_relays(', '        hop = self.find_relay_near(((source_pos[0] + sink_pos[0]) / 2.0, (source_pos[1] + sink_pos[1]) / 2.0), self.relay_search_radius)\n        if hop is not None and hop.can_route_network(network_id, wire_color) and math.dist(hop.position, source_pos) <= self.span_limit and math.dist(hop.position, sink_pos) <= self.span_limit:\n            hop.add_network(network_id, wire_color)\n            return [(hop.entity_id, wire_color)]\n\n        # Phase 1: Try to find a path through existing relays\n        existing_path = self._find_path_through_existing_relays(', 1, 'silent', ''),
 ]
 
 CATALOGUE = [m for m in CATALOGUE if m[3] != "PLACEHOLDER-NOT-PRESENT"]
